@@ -277,8 +277,12 @@ def compaction_triggers(facts):
     growth is a loop on num_retained_ >= k * levels"""
     fns = qfns(facts, ("req", "density"))
     out = []
-    for pat, fn in sorted(fns.items()):
-        rect = fn.get("rect") or ""
+    from astu import inlined_body
+    by_pat = {f["pat"]: f for f in fns.values()}
+    for pat, fn0 in sorted(fns.items()):
+        rect = fn0.get("rect") or ""
+        # private void helpers are seen through (the compaction loop may have been moved into one)
+        fn = dict(fn0, body=inlined_body(fn0, by_pat, keep=("compact", "compress", "compact_level"))) if fn0.get("body") is not None and fn0["name"] in ("update", "merge") else fn0
         if rect == "datasketches::req_sketch" and fn["name"] in ("update", "merge"):
             idx = [0]
 
@@ -322,9 +326,12 @@ def _calls(n):
 def density_rules(facts):
     fns = qfns(facts, ("density",))
     out = []
-    for pat, fn in sorted(fns.items()):
-        if fn.get("rect") != "datasketches::density_sketch":
+    from astu import inlined_body
+    by_pat = {f["pat"]: f for f in fns.values()}
+    for pat, fn0 in sorted(fns.items()):
+        if fn0.get("rect") != "datasketches::density_sketch":
             continue
+        fn = dict(fn0, body=inlined_body(fn0, by_pat, keep=("compact", "compress", "compact_level"))) if fn0.get("body") is not None and fn0["name"] in ("update", "merge") else fn0
         if fn["name"] in ("update", "merge"):
             st = stmts_of(fn["body"])
             guard_at, first_mut = None, None
